@@ -20,7 +20,7 @@ import props.c05 as c05
 
 import traits.trait_types as tt
 import traits.trait_list_object as tlo
-from traits.api import HasTraits, Int, List, Str, Any, push_exception_handler, pop_exception_handler
+from traits.api import HasTraits, Int, List, Str, Any, TraitError, push_exception_handler, pop_exception_handler
 
 LEVEL = "model_checking"
 ENCODED = [("traits/has_traits.py", ["HasTraits.sync_trait", "HasTraits._sync_trait_modified",
@@ -68,7 +68,7 @@ def selftest(tier):
 LIST_OPS = ["set_int", "del_int", "insert", "pop", "del_slice", "set_slice", "append", "extend", "clear", "imul", "sort", "assign"]
 
 
-def list_harness(op, n, m, mutual, alias, side, mask=None):
+def list_harness(op, n, m, mutual, alias, side, mask=None, dynamic=False):
     keykind = {"set_int": "int", "del_int": "int", "insert": "int", "pop": "int", "set_slice": "slice", "del_slice": "slice"}.get(op)
 
     def harness(ex):
@@ -87,8 +87,23 @@ def list_harness(op, n, m, mutual, alias, side, mask=None):
             l = List(Int)
             m = List(Int)
 
-        a, b = A(), B()
         bname = "m" if alias else "l"
+        if dynamic:
+            # the synchronised traits are added to the objects at run time (add_trait), each object from its own definition;
+            # an unrelated object that got the same definitions must hear nothing
+            class A(HasTraits):
+                pass
+
+            class B(HasTraits):
+                pass
+            a, b, bystander = A(), B(), B()
+            a.add_trait("l", List(Int))
+            for o_ in (b, bystander):
+                o_.add_trait(bname, List(Int))
+            bystander_calls = []
+            bystander.on_trait_change(lambda: bystander_calls.append(1), bname + "," + bname + "_items")
+        else:
+            a, b = A(), B()
         a.l = [10 * (i + 1) for i in range(n)]
         calls = {"a": 0, "b": 0, "depth": 0}
         a.sync_trait("l", b, bname if alias else None, mutual=mutual)
@@ -130,6 +145,9 @@ def list_harness(op, n, m, mutual, alias, side, mask=None):
         if not changed:
             ex.check(after_dst == before_dst, "an operation that changes nothing changes nothing on the partner")
         ex.check(errors == [], "propagation raises nothing (no exception reaches the notification exception handler)")
+        if dynamic:
+            ex.check(bystander_calls == [] and list(getattr(bystander, bname)) == [],
+                     "an unrelated object with the same run-time traits hears and receives nothing")
         return {"exc": exc, "src": after_src, "dst": after_dst, "calls": [calls["a"], calls["b"]]}
 
     return harness
@@ -172,7 +190,7 @@ def scalar_harness(k, mutual, alias, partners):
         trace = []
         val = 10
         for step in range(k):
-            op = ex.choice("op%d" % step, 8)
+            op = ex.choice("op%d" % step, 10)
             who = ex.choice("who%d" % step, partners)
             val += 1
             calls["a"] = 0
@@ -218,6 +236,22 @@ def scalar_harness(k, mutual, alias, partners):
                     bs[who].sync_trait(bname, a, "x", mutual=False, remove=True)
                     back[who] = False
                 trace.append("rm%d:%d" % (op, who))
+            elif op in (8, 9):
+                # a quiet update (trait_setq / trait_set(trait_change_notify=False)) that validation rejects: nothing changes,
+                # and the links work afterwards as before (the following steps check that)
+                if op == 9 and not alive[who]:
+                    continue
+                try:
+                    if op == 8:
+                        a.trait_setq(x="not an int")
+                    else:
+                        bs[who].trait_set(trait_change_notify=False, **{bname: "not an int"})
+                    rejected = False
+                except TraitError:
+                    rejected = True
+                trace.append("quiet-rejected%d" % op)
+                ex.check(rejected and a.x == ax and [getattr(b, bname) if alive[i] else None for i, b in enumerate(bs)] == snapshot,
+                         "a rejected quiet update changes nothing")
             elif op == 3:
                 if not alive[who]:
                     continue
@@ -416,6 +450,18 @@ def obligations(tier, build):
                                                       bounds={"list length": n, "replacement length": m,
                                                               "index / slice fields / factor": "unbounded Int or None"},
                                                       leverage="all integer arguments", max_paths=60000))
+    for mutual in (True, False):
+        for side in ("a", "b"):
+            for op in LIST_OPS:
+                for n in ((0, 2) if tier == "quick" else (0, 1, 2, 3)):
+                    if "slice" in op:
+                        continue          # (the slice forms are covered on declared traits; the run-time variant is about the trait objects)
+                    m = M if op in ("extend", "assign") else 0
+                    obs.append(Obligation("list-added-traits/%s/%s/side=%s/n=%d" % (op, "mutual" if mutual else "oneway", side, n),
+                                          list_harness(op, n, m, mutual, False, side, None, dynamic=True), env=env, stubs=STUBS,
+                                          bounds={"list length": n, "replacement length": m, "traits": "added with add_trait on both objects "
+                                                  "and on an unrelated bystander", "index / factor": "unbounded Int"},
+                                          leverage="all integer arguments", max_paths=60000))
     K = 2 if tier == "quick" else 3
     for mutual in (True, False):
         for alias in (False, True):
@@ -423,6 +469,7 @@ def obligations(tier, build):
                 obs.append(Obligation("scalar/%s%s/partners=%d/k=%d" % ("mutual" if mutual else "oneway", "-alias" if alias else "", partners, K),
                                       scalar_harness(K, mutual, alias, partners),
                                       bounds={"history length": K, "partners": partners,
-                                              "operations": ["assign source", "assign target", "remove link (either side, mutual or one direction)", "collect partner", "re-assign same"]},
+                                              "operations": ["assign source", "assign target", "remove link (either side, mutual or one direction)", "collect partner", "re-assign same",
+                                                             "rejected quiet update on either side"]},
                                       leverage="choice feasibility only", max_paths=60000))
     return obs
